@@ -27,6 +27,9 @@ RS = 'ska_ref::RefSka'
 
 
 def run(facts, chk, tier, only=None):
+    from . import vcf_e2e
+    # the whole of `ska map -f vcf`, functionally, with the noodles builders recorded symbolically
+    chk.guard('C05.e2e', 'C05.e2e:run', lambda: vcf_e2e.check_vcf_e2e(facts, chk, 'C05.e2e', tier))
     chk.guard('C05.case', 'C05.case:run', lambda: c04.check_case(facts, chk, 'C05'))
     from ..facts import fn_with_helpers
     # private helpers holding the header / record builders are inlined so that the anchors stay visible
